@@ -26,3 +26,35 @@ def in_region(name, line, impl, model):
         return bool(f(line.split(" "), impl, model))
     except Exception:
         return False
+
+
+UNIT_NS = {"hour": 3600 * 10**9, "minute": 60 * 10**9, "second": 10**9, "millisecond": 10**6, "microsecond": 10**3,
+           "nanosecond": 1}
+CONTAINER = {"minute": 3600 * 10**9, "second": 60 * 10**9, "millisecond": 10**9, "microsecond": 10**6,
+             "nanosecond": 10**3}
+
+
+@region("halfeven-container-parity")
+def _halfeven_container_parity(t, impl, expected):
+    """pt_round / pdt_round with mode halfEven on a sub-hour unit, the time of day exactly on a tie of the
+    increment, and an odd number of increments between midnight and the start of the unit's container
+    (hour for minutes, minute for seconds, ...): RoundTime counts the quantity from the container, the property
+    counts multiples from midnight, so the 'even multiple' differs."""
+    if t[0] == "pt_round":
+        tod, unit, inc, mode = t[1:7], t[7], int(t[8]), t[9]
+    elif t[0] == "pdt_round":
+        tod, unit, inc, mode = t[4:10], t[10], int(t[11]), t[12]
+    else:
+        return False
+    if mode != "halfEven" or unit not in CONTAINER:
+        return False
+    h, mi, s, ms, us, ns = [int(x) for x in tod]
+    total = ((((h * 60 + mi) * 60 + s) * 1000 + ms) * 1000 + us) * 1000 + ns
+    q = inc * UNIT_NS[unit]
+    cont = CONTAINER[unit]
+    if cont % q != 0:
+        return False
+    base = total - total % cont          # start of the container
+    if (total % q) * 2 != q:             # not an exact tie
+        return False
+    return (base // q) % 2 == 1
